@@ -177,6 +177,13 @@ pub struct Take<'a, T> {
     limit: usize,
 }
 
+impl<T> Take<'_, T> {
+    /// The number of bytes that can still be read before this reader reports its end.
+    pub fn limit(&self) -> usize {
+        self.limit
+    }
+}
+
 impl<T: Read> Read for Take<'_, T> {
     fn read(&mut self, buf: &mut [u8]) -> Result<usize> {
         // Don't call into inner reader at all at EOF because it may still block
